@@ -163,6 +163,17 @@ InitCase ==
                        [] use = 2 -> Bin("+", Bin("*", NameRef("myname"), NumLit(<<50>>)), RelRef(1, 1))
                        [] use = 3 -> CallN("SUM", <<NameRef("myname"), NumLit(<<49>>)>>)
           IN case = Mk("name-cell", WithProbe(DenseCells, p, ast), nm, Probe(p))
+  \/ /\ "names" \in Families      \* the cell (a member of the range) a name stands for is SET after the formula was evaluated once
+     /\ \E t \in 1..3, c \in 1..3, r \in 1..3, p \in 1..3, use \in 1..4 :
+          LET tgt == <<SheetsL[t], c, r>>
+              cells == [k \in DOMAIN DenseCells |-> IF k = tgt THEN K(Whole(100000)) ELSE DenseCells[k]]
+              ast == CASE use = 1 -> Bin("*", NameRef("myname"), NumLit(<<50>>))
+                       [] use = 2 -> CallN("SUM", <<NameRef("myname"), NumLit(<<49>>)>>)
+                       [] use = 3 -> CallN("SUM", <<NameRef("myrange")>>)
+                       [] use = 4 -> Bin("+", CallN("COUNTA", <<NameRef("myrange")>>), NameRef("myname"))
+              nms == ("myname" :> Ref(SheetsL[t], c, r, TRUE, TRUE)) @@ ("myrange" :> RngV(SheetsL[t], 1, 1, 3, 3, 4))
+          IN case = [kind |-> "name-set", cells |-> WithProbe(cells, p, ast), names |-> nms, probe |-> Probe(p),
+                     pname |-> "", pre |-> <<>>, late |-> tgt, was |-> Whole(1)]
   \/ /\ "names" \in Families
      /\ \E t \in 1..3, c \in 1..3, r \in 1..3 :
           case = [Mk("name-eval", DenseCells, ("myname" :> Ref(SheetsL[t], c, r, TRUE, TRUE)), <<SheetsL[t], c, r>>) EXCEPT !.pname = "myname"]
